@@ -191,7 +191,7 @@ Example C14_example :
   exists id d, f_ifaces f = [id] /\ i_methods id = [d] /\
     map (fun i => (ipath i, qualifier i)) (f_imports f)
       = [(B "example.com/m/ext/http", B "http0"); (src, B "src"); (B "net/http", B "http")] /\
-    map vname (dvars d) = [B "req"; B "kToBox"; B "rest"; B "err"] /\ capture_free d = true /\
+    map vname (dvars d) = [B "req"; B "vToBox"; B "rest"; B "err"] /\ capture_free d = true /\
     forallb (var_guard cx0 (file_env (B "example.com/m/mocks") f [] (type_instantiation cx0 id) (map vname (dvars d))) false) (ivars id) = true /\
     map (den_arg (file_env (B "example.com/m/mocks") f [] (type_instantiation cx0 id) [])) (arg_list d)
       = map (fun x => Some (norm (snd x))) (sparams (snd (nth 0 (if_methods if_ok) (B "", {| sparams := []; svariadic := false; sresults := [] |})))).
